@@ -42,7 +42,9 @@ def _worker_init(pid, pin=True):
             ident = mp.current_process()._identity
             cpus = sorted(os.sched_getaffinity(0))
             if ident and len(cpus) > 1:
-                os.sched_setaffinity(0, {cpus[(ident[0] - 1) % len(cpus)]})
+                # offset by the parent pid so that several concurrent ./check runs do not all land on cores 0..jobs-1
+                base = (os.getppid() * 5) % len(cpus)
+                os.sched_setaffinity(0, {cpus[(base + ident[0] - 1) % len(cpus)]})
         except Exception:
             pass
     from mc import guard
